@@ -1045,7 +1045,9 @@ def _decorate_new_with_invariants(new_func: CallableT) -> CallableT:
     return wrapper  # type: ignore
 
 
-def _decorate_with_invariants(func: CallableT, is_init: bool) -> CallableT:
+def _decorate_with_invariants(
+    func: CallableT, is_init: bool, is_setattr: Optional[bool] = None
+) -> CallableT:
     """
     Decorate the method ``func`` with invariant checks.
 
@@ -1053,10 +1055,16 @@ def _decorate_with_invariants(func: CallableT, is_init: bool) -> CallableT:
 
     :param func: function to be wrapped
     :param is_init: True if the ``func`` is __init__
+    :param is_setattr:
+        True if the ``func`` is bound as __setattr__ in the class;
+        if None, the name of the function decides.
     :return: function wrapped with invariant checks
     """
     if _already_decorated_with_invariants(func=func):
         return func
+
+    if is_setattr is None:
+        is_setattr = func.__name__ == "__setattr__"
 
     sign = inspect.signature(func)
     param_names = list(sign.parameters.keys())
@@ -1133,7 +1141,7 @@ def _decorate_with_invariants(func: CallableT, is_init: bool) -> CallableT:
 
                 invariants = (
                     instance.__class__.__invariants_on_setattr__
-                    if func.__name__ == "__setattr__"
+                    if is_setattr
                     else instance.__class__.__invariants_on_call__
                 )
 
@@ -1186,7 +1194,7 @@ def _decorate_with_invariants(func: CallableT, is_init: bool) -> CallableT:
 
                 invariants = (
                     instance.__class__.__invariants_on_setattr__
-                    if func.__name__ == "__setattr__"
+                    if is_setattr
                     else instance.__class__.__invariants_on_call__
                 )
 
@@ -1358,7 +1366,9 @@ def add_invariant_checks(cls: ClassT) -> None:
                 setattr(cls, "__init__", wrapper)
 
     for name, func in names_funcs:
-        wrapper = _decorate_with_invariants(func=func, is_init=False)
+        wrapper = _decorate_with_invariants(
+            func=func, is_init=False, is_setattr=name == "__setattr__"
+        )
         if wrapper is not func:
             setattr(cls, name, wrapper)
 
